@@ -380,7 +380,7 @@ int disasm_arc(
             strcat(instruction, temp);
             break;
           case OP_H:
-            a = (opcode16 >> 5) | ((opcode16 & 0x7) << 3);
+            a = ((opcode16 >> 5) & 0x7) | ((opcode16 & 0x7) << 3);
             if (a == LIMM)
             {
               i = 100;
